@@ -140,6 +140,9 @@ def falsify(ctx, deep=False):
     for k in range(n):
         p = ic.gen_params(rng, small=not (deep and k % 4 == 0))
         p["data_seed"] = rng.getrandbits(30); p["steps"] = rng.randint(1, 12); p["long"] = (k % 2 == 0); p["family"] = (k % 3 == 0)
+        if k == 1:
+            # near the edge of what the Cholesky factorisation accepts (huge outer scale in pixels): known finding
+            p.update({"kind": "vk", "nx": 8, "ps": 0.05, "r0": 0.1, "L0": 2000.0, "extra": 2, "family": False})
         try:
             res = property_checks(p)
         except Exception as ex:
@@ -167,8 +170,21 @@ def replay(payload):
 
 
 def classify(v, known):
+    if known["id"] == "C05-vk-unstable-near-ill-conditioning":
+        inp = v["input"]
+        return (v["clause"].startswith("row recursion is stable") and inp.get("kind") == "vk"
+                and float(inp["L0"]) / float(inp["ps"]) >= 2e4)
     return False
 
 
 def replay_known(known):
+    if known["id"] == "C05-vk-unstable-near-ill-conditioning":
+        import warnings
+        with warnings.catch_warnings():
+            warnings.simplefilter("ignore")
+            s = ic.make_screen("vk", 8, 0.05, 0.1, 2000.0, 2, ic.ScriptedGenerator(1))
+        nc, nx = s.n_columns, s.nx_size
+        m = nc * nx
+        Fm = numpy.zeros((m, m)); Fm[:nx, :] = s.A_mat; Fm[nx:, :m - nx] = numpy.eye(m - nx)
+        return float(numpy.max(numpy.abs(numpy.linalg.eigvals(Fm)))) >= 1.0
     return None
